@@ -53,7 +53,7 @@ class Graph:
         self.params = {}
 
 
-def generate(rng, size="small", force_tls=False):
+def generate(rng, size="small", force_tls=False, dummy_archives=False):
     g = Graph()
     if size == "small":
         nobj = rng.randint(3, 10)
@@ -210,6 +210,14 @@ def generate(rng, size="small", force_tls=False):
     # command line (after object `term_after`), so FDE-bearing objects may follow it.
     g.term_after = rng.randrange(nobj) if rng.random() < 0.35 else None
     g.params["term_after"] = g.term_after
+    # Archives whose members nothing references (never loaded), placed between the objects: input
+    # groups then mix loaded objects with not-loaded archive entries, and objects that are reachable
+    # only through __start_/__stop_ symbols may sit *after* such entries in their group.
+    g.dummy_archives = []
+    if dummy_archives and rng.random() < 0.6:
+        for k in range(rng.randint(1, 4)):
+            g.dummy_archives.append((rng.randrange(nobj), rng.randint(1, 3), rng.random() < 0.3))
+    g.params["dummy_archives"] = len(g.dummy_archives)
     return g
 
 
@@ -430,6 +438,27 @@ def emit(g, workdir):
             f.write("\n".join(out) + "\n")
         obj = os.path.join(workdir, f"o{o}.o")
         assemble(src, obj)
+        for k, (before, nmem, thin) in enumerate(getattr(g, "dummy_archives", [])):
+            if before != o:
+                continue
+            members = []
+            for m in range(nmem):
+                ms = os.path.join(workdir, f"unused{k}_{m}.s")
+                with open(ms, "w") as f:
+                    f.write(f'\t.section .text.unused{k}_{m},"ax",@progbits\n\t.globl unused{k}_{m}\n'
+                            f'\t.type unused{k}_{m},@function\nunused{k}_{m}:\n\t.cfi_startproc\n\tret\n'
+                            f'\t.cfi_endproc\n\t.size unused{k}_{m}, .-unused{k}_{m}\n'
+                            + (f'\t.section set0,"aw",@progbits\n\t.quad 0x7777\n' if g.nsets else "")
+                            + '\t.section .note.GNU-stack,"",@progbits\n')
+                mo = os.path.join(workdir, f"unused{k}_{m}.o")
+                assemble(ms, mo)
+                members.append(mo)
+            from .common import run_cmd, HarnessError
+            apath = os.path.join(workdir, f"libunused{k}.a")
+            rc, _o, e = run_cmd(["ar", "rcsT" if thin else "rcs", apath] + members)
+            if rc != 0:
+                raise HarnessError(f"ar (dummy archive) failed: {e}")
+            paths.append(apath)
         paths.append(obj)
         if getattr(g, "term_after", None) == o:
             tsrc = os.path.join(workdir, "term.s")
